@@ -131,13 +131,12 @@ func getSpatialIdAttrs(spatialId string) (int, int, int, int, error) {
 		// 不正形式(要素数)
 		return 0, 0, 0, 0, errors.NewSpatialIdError(errors.InputValueErrorCode, fmt.Sprintf("spatialId: %v", spatialId))
 	}
-	var errNumberConversion error
-	zoom, errNumberConversion := strconv.Atoi(spatialIdAttributes[0])
-	f, errNumberConversion := strconv.Atoi(spatialIdAttributes[1])
-	x, errNumberConversion := strconv.Atoi(spatialIdAttributes[2])
-	y, errNumberConversion := strconv.Atoi(spatialIdAttributes[3])
+	zoom, errZoom := strconv.Atoi(spatialIdAttributes[0])
+	f, errF := strconv.Atoi(spatialIdAttributes[1])
+	x, errX := strconv.Atoi(spatialIdAttributes[2])
+	y, errY := strconv.Atoi(spatialIdAttributes[3])
 	// 不正形式(数値)
-	if errNumberConversion != nil {
+	if errZoom != nil || errF != nil || errX != nil || errY != nil {
 		return 0, 0, 0, 0, errors.NewSpatialIdError(errors.InputValueErrorCode, fmt.Sprintf("spatialId: %v", spatialId))
 	}
 	return zoom, f, x, y, nil
